@@ -727,7 +727,13 @@ def run(ctx):
     if (RH.reads < 1 or RH.rounds < 2) and RH.bad is None:
         raise AnalysisBroken('spawn.c main: relay loop not explored (%d reads, %d select calls)' % (RH.reads, RH.rounds))
     r7.check(RH.bad is None, 'bytes-read-from-the-child-are-appended-before-the-round-ends', 'spawn.c:main', RH.bad[0] if RH.bad else '', RH.bad[1] if RH.bad else None)
-    r7.expect_min(1)
+    from rules import C18_spawn
+    Hd, _ = C18_spawn.docmd_explore(db, rep)
+    k_ = 'parent-keeps-both-ends-of-the-report-pipe-until-the-child-is-reaped'
+    if k_ not in Hd.sites:
+        raise AnalysisBroken('spawn.c docmd: no started delivery explored')
+    r7.check(Hd.sites[k_][0], k_, Hd.sites[k_][1], Hd.sites[k_][2], Hd.sites[k_][3])
+    r7.expect_min(2)
 
     # ---- 6 connect phase
     r6 = rep.rule('C09.6-connect-phase', 'R-TABLE', 'qmail-remote main over MX geometries (0..2 addresses, equal/different preferences, own addresses, back-off table, socket/connect outcomes, smtproutes or not): DNS soft/memory trouble and connect trouble are temporary, DNS hard errors, no MX and "I am the best MX" are permanent; hosts are tried in order, skipping only backed-off ones')
